@@ -1,11 +1,33 @@
 /-
   C19 — the printed KAURI tree is a faithful description of the fitted tree.
-  (Work in progress.)  First facts about the printer model `Tree.printNode`.
+
+  `Tree.printNode` (Model/Kauri.lean) is the line-by-line model of `print_kauri_tree.print_node`; the harness
+  compares it character for character with the captured stdout of the real function.  Here:
+
+  * `print_eq_render`   the printed strings are the renderings of structured lines (`KauriC19.printLines`);
+  * `read_print`        every printed string determines its structured line (depth = number of leading `"| "`,
+                        kind, node id, cluster label, feature label, threshold text): reading the strings back
+                        gives exactly those lines;
+  * `parse_print`       the recursive-descent reader (depth-directed, as `harness/props/c19.py::parse_rules`)
+                        turns the lines into the nested rules `rulesOf t` and consumes them entirely;
+  * `rules_eval`        applying `rulesOf t` to a point is `Tree.route` (= `Tree.predict` on one row);
+  * `print_parse_eval`  the composition: read the printed text back, apply it to any point, get `predict`;
+  * `print_parse_eval_distinct`  the same with the label/threshold readers *derived* from "labels of used
+                        features are pairwise distinct" and "different thresholds print differently";
+  * `default_names_distinct`  the default labels `X[:, f]` are pairwise distinct;
+  * `wellFormed_init`, `wellFormed_addChild`  the hypothesis `WellFormed` holds for every tree `fit` can build.
+
+  Trusted (stated as hypotheses): Python's `repr(float)` round-trips (`ReadBack.thr`) and contains no blank
+  (`ThrNoBlank`).  Not covered: cutting the captured stdout into lines (a feature name containing a newline
+  would break it; the harness does this step on the real output).
 -/
-import GemVerif.Model.Kauri
+import GemVerif.Lemmas.KauriC19
 
 namespace GemVerif.Props.C19
-open GemVerif Model.Kauri
+open GemVerif RealLike Model.Kauri KauriC19
+
+variable {α : Type} [RealLike α]
+set_option linter.unusedSectionVars false
 
 /-- A leaf prints exactly its node line and its cluster line. -/
 theorem print_leaf {α : Type} [RealLike α] (t : Tree α) (sh : α → String) (nm : Int → String) (fuel node : Nat)
@@ -14,5 +36,132 @@ theorem print_leaf {α : Type} [RealLike α] (t : Tree α) (sh : α → String) 
       [rep "| " (t.depths[node]!) ++ s!"Node {node}",
        rep "| " (t.depths[node]!) ++ " " ++ s!"Cluster: {t.target[node]!}"] := by
   simp [Tree.printNode, h]
+
+/-- The printer model emits exactly the renderings of the structured lines `printLines` (any tree, any fuel). -/
+theorem print_eq_render (t : Tree α) (sh : α → String) (nm : Int → String) (fuel node : Nat) :
+    t.printNode sh nm fuel node = (printLines t sh nm fuel node).map Line.render :=
+  printNode_eq_map_render t sh nm fuel node
+
+/-- A printed string determines its line: `Line.read` (count the leading `"| "`, look at the next characters,
+    cut the rule at its last blank) recovers depth, kind and all fields, for any feature label whatsoever, provided
+    the threshold text contains no blank. -/
+theorem read_render_line (l : Line) (h : l.ThrNoBlank) : Line.read l.render = some l :=
+  read_render l h
+
+/-- Reading the printed strings of a well-formed tree back gives its structured lines. -/
+theorem read_print {t : Tree α} (ht : WellFormed t) {sh : α → String} (hnb : ThrNoBlank t sh) (nm : Int → String)
+    (fuel node : Nat) (hnode : node < t.nNodes) :
+    readLines (t.printNode sh nm fuel node) = some (printLines t sh nm fuel node) := by
+  rw [print_eq_render]
+  exact readLines_map_render _ (printLines_thrNoBlank ht hnb nm fuel node hnode)
+
+/-- The reader turns the printed lines of the subtree of `node`, followed by anything, into the rules of that subtree
+    and leaves the rest unread: the printed text is a set of properly nested rules. -/
+theorem parse_print_prefix {t : Tree α} (ht : WellFormed t) (sh : α → String) (nm : Int → String)
+    (fuel node : Nat) (hnode : node < t.nNodes) (hfuel : t.nNodes ≤ fuel + node) (rest : List Line)
+    (f : Nat) (hf : (printLines t sh nm fuel node).length ≤ f) :
+    parseAt f (t.depths[node]!) (printLines t sh nm fuel node ++ rest) = some (rulesOf t sh nm fuel node, rest) :=
+  parseAt_printLines ht sh nm fuel node f rest hnode hfuel hf
+
+/-- The whole printed tree is read as one rule tree, `rulesOf t`, with nothing left over. -/
+theorem parse_print {t : Tree α} (ht : WellFormed t) (sh : α → String) (nm : Int → String)
+    (fuel : Nat) (hfuel : t.nNodes ≤ fuel) :
+    parse (printLines t sh nm fuel 0) = some (rulesOf t sh nm fuel 0) := by
+  have h := parseAt_printLines ht sh nm fuel 0 (printLines t sh nm fuel 0).length [] ht.pos (by omega)
+    (Nat.le_refl _)
+  rw [ht.root_depth, List.append_nil] at h
+  simp [parse, h]
+
+/-- Applying the rules of the tree to a point is routing the point through the tree, when printed labels are read
+    back to the column / the value they were printed from. -/
+theorem rules_eval {t : Tree α} (ht : WellFormed t) {sh : α → String} {nm : Int → String}
+    {colOf : String → Nat} {readThr : String → α} (hrb : ReadBack t sh nm colOf readThr) (x : Nat → α)
+    (fuel node : Nat) (hnode : node < t.nNodes) (hfuel : t.nNodes ≤ fuel + node) :
+    evalRules colOf readThr x (rulesOf t sh nm fuel node) = t.route x fuel node :=
+  evalRules_rulesOf ht hrb x fuel node hnode hfuel
+
+/-- **C19.**  For every well-formed tree and every point `x`: reading the printed text back (`parseText`: strings →
+    lines → nested rules) and applying the rules to `x` gives the cluster `predict` assigns to `x`.
+    `sh` is the rendering of thresholds, `nm f` the label of feature `f` (the user's `feature_names[f]` or the
+    default); `ReadBack` says that `readThr` inverts `sh` on the thresholds of the tree (Python's `repr(float)`
+    round-trips: trusted) and that `colOf` maps the label of each used feature to its column (possible exactly when
+    the labels of used features are pairwise distinct, see `print_parse_eval_distinct`). -/
+theorem print_parse_eval {t : Tree α} (ht : WellFormed t) {sh : α → String} {nm : Int → String}
+    {colOf : String → Nat} {readThr : String → α} (hrb : ReadBack t sh nm colOf readThr)
+    (hnb : ThrNoBlank t sh) (x : Nat → α) (fuel : Nat) (hfuel : t.nNodes ≤ fuel) :
+    (parseText (t.printNode sh nm fuel 0)).map (evalRules colOf readThr x) = some (t.route x fuel 0) := by
+  rw [parseText, read_print ht hnb nm fuel 0 ht.pos, Option.bind_some, parse_print ht sh nm fuel hfuel,
+    Option.map_some, rules_eval ht hrb x fuel 0 ht.pos (by omega)]
+
+/-- The same statement on structured lines (no assumption on the threshold text). -/
+theorem print_parse_eval_lines {t : Tree α} (ht : WellFormed t) {sh : α → String} {nm : Int → String}
+    {colOf : String → Nat} {readThr : String → α} (hrb : ReadBack t sh nm colOf readThr)
+    (x : Nat → α) (fuel : Nat) (hfuel : t.nNodes ≤ fuel) :
+    (parse (printLines t sh nm fuel 0)).map (evalRules colOf readThr x) = some (t.route x fuel 0) := by
+  rw [parse_print ht sh nm fuel hfuel, Option.map_some, rules_eval ht hrb x fuel 0 ht.pos (by omega)]
+
+/-- When the labels of the used features are pairwise distinct and different thresholds print differently, the
+    printed text alone fixes how labels are read (`colOfTree`, `readThrTree`: look the label up among the printed
+    rules). -/
+theorem readBack_distinct {t : Tree α} {sh : α → String} {nm : Int → String}
+    (hn : NamesDistinct t nm) (hth : ThrDistinct t sh) :
+    ReadBack t sh nm (colOfTree t nm) (readThrTree t sh) :=
+  readBack_of_distinct hn hth
+
+/-- **C19**, with the readers derived from distinctness of labels and of printed thresholds. -/
+theorem print_parse_eval_distinct {t : Tree α} (ht : WellFormed t) {sh : α → String} {nm : Int → String}
+    (hn : NamesDistinct t nm) (hth : ThrDistinct t sh) (hnb : ThrNoBlank t sh) (x : Nat → α) (fuel : Nat)
+    (hfuel : t.nNodes ≤ fuel) :
+    (parseText (t.printNode sh nm fuel 0)).map (evalRules (colOfTree t nm) (readThrTree t sh) x)
+      = some (t.route x fuel 0) :=
+  print_parse_eval ht (readBack_of_distinct hn hth) hnb x fuel hfuel
+
+/-- The default labels `X[:, f]` (used when `feature_names` is `None`) are pairwise distinct, for any tree. -/
+theorem default_names_distinct (t : Tree α) : NamesDistinct t (fun f => s!"X[:, {f}]") := by
+  intro n m _ _ _ _ h
+  exact defaultName_injective h
+
+/-- Labels taken from a list without repetition (`feature_names[f]`) are pairwise distinct on the features the tree
+    uses, when the list is long enough for them. -/
+theorem user_names_distinct (t : Tree α) (names : Array String) (hnd : names.toList.Nodup)
+    (hlen : ∀ n, n < t.nNodes → t.left[n]! ≠ -1 → 0 ≤ featAt t n ∧ (featAt t n).toNat < names.size) :
+    NamesDistinct t (fun f => names[f.toNat]!) := by
+  intro n m hn hm hln hlm h
+  obtain ⟨h0, h1⟩ := hlen n hn hln
+  obtain ⟨h2, h3⟩ := hlen m hm hlm
+  have := userName_injective names hnd h1 h3 h
+  omega
+
+/-- The tree `fit` starts from is well formed. -/
+theorem wellFormed_init : WellFormed (Tree.init : Tree α) := KauriC19.wellFormed_init
+
+/-- `Tree._add_child` keeps the tree well formed (any existing father, any split with a feature index ≥ 0): every
+    tree `Kauri.fit` builds satisfies the hypothesis of `print_parse_eval`. -/
+theorem wellFormed_addChild {t : Tree α} (ht : WellFormed t) {father : Nat} (hf : father < t.nNodes)
+    (s : Split α) (hfeat : 0 ≤ s.feature) : WellFormed (t.addChild father s) :=
+  KauriC19.wellFormed_addChild ht hf s hfeat
+
+/-! ### the hypotheses are satisfiable: the 3-node tree `KauriC19.Example.tree` over `Rat`
+    (root: feature 2 ≤ 1/2, left leaf → cluster 0, right leaf → cluster 1; printed with the default labels) -/
+
+section Example
+open KauriC19.Example
+
+/-- `print_parse_eval` on this tree: the printed text, read back, sends `x` to cluster 0 when `x₂ ≤ 1/2` and to
+    cluster 1 otherwise -/
+example (x : Nat → Rat) :
+    (parseText (tree.printNode sh nm 3 0)).map (evalRules colOf readThr x) = some (if x 2 ≤ 1/2 then 0 else 1) := by
+  rw [print_parse_eval wf readBack noBlank x 3 (Nat.le_refl 3)]
+  simp [Tree.route, tree, Tree.addChild, Tree.init, RealLike.le]
+
+/-- the distinctness hypotheses of `print_parse_eval_distinct` hold too (a single rule) -/
+example : NamesDistinct tree nm ∧ ThrDistinct tree sh := by
+  constructor
+  · intro n m hn hm hln hlm _
+    rw [internal_zero hn hln, internal_zero hm hlm]
+  · intro n m hn hm hln hlm _
+    rw [internal_zero hn hln, internal_zero hm hlm]
+
+end Example
 
 end GemVerif.Props.C19
